@@ -5,6 +5,7 @@
 mod core;
 mod gen;
 mod props;
+mod sched;
 mod supervise;
 
 use crate::core::*;
@@ -20,7 +21,10 @@ fn arg_value(args: &[String], name: &str) -> Option<String> {
 macro_rules! dispatch {
     ($id:expr, $f:ident, $($arg:expr),*) => {
         match $id {
+            "C05" => $f::<props::c05::C05>($($arg),*),
+            "C09" => $f::<props::c09::C09>($($arg),*),
             "C12" => $f::<props::c12::C12>($($arg),*),
+            "C13" => $f::<props::c13::C13>($($arg),*),
             other => {
                 eprintln!("unknown property {other}");
                 exit(2)
@@ -50,6 +54,18 @@ fn do_work<P: Prop>(args: &[String]) -> i32 {
             3
         }
     }
+}
+
+fn do_describe<P: Prop>(args: &[String]) -> i32 {
+    let get = |n: &str| arg_value(args, n).unwrap_or_default();
+    let tier = Tier::parse(&get("--tier")).unwrap_or(Tier::Quick);
+    let seed: u64 = get("--seed").parse().unwrap_or(0);
+    let idx: u64 = get("--idx").parse().unwrap_or(0);
+    let lane = get("--lane");
+    let cseed = case_seed(seed, P::ID, &lane, idx);
+    let case = describe_case::<P>(tier, &lane, cseed);
+    println!("{}", serde_json::json!({"case": case, "case_seed": cseed}));
+    0
 }
 
 fn do_supervise<P: Prop>(tier: Tier, seed: u64) -> i32 {
@@ -93,6 +109,8 @@ fn main() {
     let id = args[2].as_str();
     let code = match args[1].as_str() {
         "work" => dispatch!(id, do_work, &args),
+        // print the case (lane, --idx) of a run without executing it
+        "describe" => dispatch!(id, do_describe, &args),
         "supervise" => {
             let tier = Tier::parse(&arg_value(&args, "--tier").unwrap_or("quick".into()))
                 .unwrap_or(Tier::Quick);
